@@ -448,10 +448,7 @@ pub fn gen_plan(rng: &mut Rng, tier: Tier) -> Plan {
         let nent = (p.classes.len() + p.others.len()) as u64;
         // nest_jar walks the entries twice (index pass, copy pass): about 3 operations per entry and pass
         let span = 8 * nent + 6;
-        let mut fail_at: Vec<u32> = (0..z.below(3)).map(|_| z.below(span) as u32).collect();
-        fail_at.sort();
-        fail_at.dedup();
-        p.lazy = Some(crate::simjar::LazyPlan { fail_at, sticky: z.chance(30), io: if z.chance(50) { IoPlan::gen_legal(&mut z) } else { IoPlan::plain() } });
+        p.lazy = Some(crate::simjar::LazyPlan::draw(&mut z, span, 2 * nent));
     }
     if let Some(st) = &p.via_text {
         if f.chance(45) {
